@@ -65,7 +65,7 @@ def r10a(ctx, rep):
                               'successful persist_log_entry / WAL append: a restart forgets an entry the node accepted' % (kind, rets))
             else:
                 rep.holds('R10a', f, site, 'every success exit after the %s passes a successful persist (or a rollback)' % kind)
-    rep.floor('R10a', 'sites adding to PersistentState.log', n, 5)
+    rep.floor('R10a', 'sites adding to PersistentState.log', n, 2)
 
 
 def r10c(ctx, rep):
@@ -130,7 +130,7 @@ def r10c(ctx, rep):
     for (bb, idx, fs, dl, line) in A.field_mut_borrows(f):
         if fs and fs[-1] == RS + 'voted_for':
             muts.append((bb, line))
-    rep.floor('R10c', 'recovered-vote mutation sites', len(muts), 4)
+    rep.floor('R10c', 'recovered-vote mutation sites', len(muts), 2)
     for k, (bb, line) in enumerate(sorted(set(muts))):
         ok = False
         why = []
@@ -175,6 +175,7 @@ def run(ctx, rep):
     r10c(ctx, rep)
     wal_rules.r02b(ctx, rep, ['RaftWal'])
     wal_rules.r02e(ctx, rep, ['RaftWal'])
+    wal_rules.r02f(ctx, rep, ['RaftWal'])
     r10b_candidates(ctx, rep)
     if ctx.tier == 'thorough':
         witness.run(rep, 'R01a', ['RaftPersistentStateIsPrivate', 'RaftWalWriterIsPrivate'])
